@@ -64,4 +64,42 @@ def requiredConfigSites : List (String × String × String × String × String) 
   ("SimpleJSONRPCServer", "SimpleJSONRPCDispatcher", "_marshaled_dispatch", "loads", "self.json_config"),
   ("SimpleJSONRPCServer", "SimpleJSONRPCDispatcher", "_marshaled_single_dispatch", "dump", "config")]
 
+/-- For every class of jsonrpc.py / SimpleJSONRPCServer.py whose constructor takes a configuration: the attribute of
+    the new object that holds it afterwards — stored by the constructor itself or by the constructor of the base
+    class it forwards the argument to.  In the models an entry point *is* its configuration argument
+    (`Server.marshaledDispatch cfg …`, `rpcLoad cfg …`, `Payload.dump cfg …`): the table records that each real
+    constructor keeps the object it is given, so that the methods reading `self.json_config` / `self._config` /
+    `self.config` (`configExprs`) read that object and not the default configuration (whose `use_jsonclass` is on).
+    `Payload` keeps nothing: it reads `config.version` in its constructor only. -/
+def configSinks : List (String × String × String) := [
+  ("SimpleJSONRPCServer", "CGIJSONRPCRequestHandler", "json_config"),
+  ("SimpleJSONRPCServer", "PooledJSONRPCServer", "json_config"),
+  ("SimpleJSONRPCServer", "SimpleJSONRPCDispatcher", "json_config"),
+  ("SimpleJSONRPCServer", "SimpleJSONRPCServer", "json_config"),
+  ("jsonrpc", "Fault", "config"), ("jsonrpc", "MultiCall", "_config"), ("jsonrpc", "MultiCallMethod", "_config"),
+  ("jsonrpc", "MultiCallNotify", "_config"), ("jsonrpc", "Payload", ""), ("jsonrpc", "SafeTransport", "_config"),
+  ("jsonrpc", "ServerProxy", "_config"), ("jsonrpc", "Transport", "_config"), ("jsonrpc", "TransportMixIn", "_config"),
+  ("jsonrpc", "UnixTransport", "_config")]
+
+/-- Every other call of something that has a configuration parameter (constructors of the transports and of the
+    batch helpers, `validate_request`, `_dispatch`, `_method_exception_fault`) passes the configuration at hand —
+    the parameter, or the attribute the constructor stored it in; `Payload(…)` alone may be built without one (its
+    caller `dump` has resolved the version already, the only thing `Payload` reads). -/
+def configPassed (sites : List (String × String × String × String × String)) : Bool :=
+  sites.all fun s =>
+    if s.2.2.2.1 == "Payload" then s.2.2.2.2 == "" || s.2.2.2.2 == "config"
+    else ["config", "self._config", "self.json_config"].contains s.2.2.2.2
+
+/-- The hand-overs on the path of a remote call, of a batch and of a served request. -/
+def requiredPassing : List (String × String × String × String × String) := [
+  ("jsonrpc", "ServerProxy", "__init__", "Transport", "config"),
+  ("jsonrpc", "ServerProxy", "__init__", "SafeTransport", "config"),
+  ("jsonrpc", "ServerProxy", "__init__", "UnixTransport", "config"),
+  ("jsonrpc", "MultiCall", "__getattr__", "MultiCallMethod", "self._config"),
+  ("jsonrpc", "MultiCall", "_notify", "MultiCallNotify", "self._config"),
+  ("jsonrpc", "MultiCallNotify", "__getattr__", "MultiCallMethod", "self._config"),
+  ("SimpleJSONRPCServer", "SimpleJSONRPCDispatcher", "_marshaled_single_dispatch", "_dispatch", "config"),
+  ("SimpleJSONRPCServer", "SimpleJSONRPCDispatcher", "_marshaled_single_dispatch", "&_dispatch", "config"),
+  ("SimpleJSONRPCServer", "SimpleJSONRPCDispatcher", "_unmarshaled_dispatch", "validate_request", "self.json_config")]
+
 end JRV.JsonClass
